@@ -280,18 +280,45 @@ func aesPasswords(r *vh.Run) []pwCase {
 	return out
 }
 
-// password classes for the findings
-func prepClass(pw pwCase) string {
+// aesClass names the finding behind a disagreement between pdfcpu and the standard about an AES-256 password.
+// selfOK: pdfcpu authenticates the password against what pdfcpu itself wrote for it.  When it does not, the write
+// side and the read side of pdfcpu disagree with each other (fixed by pdfcpu dd3e7ff0; the classes stay armed);
+// when it does, pdfcpu is consistent and what is left is that its preparation (processInput, a PRECIS identifier
+// profile) is not SASLprep.
+func aesClass(pw pwCase, selfOK bool) string {
 	pp, err := pdfcpu.VerifC24ProcessInput(pw.raw)
-	switch {
-	case !pw.ok:
-		return "prohibited"
-	case err != nil || string(pp) != pw.raw || string(pw.prepared) != pw.raw && len(pw.raw) <= 127:
-		return "aes256-password-prep-asymmetric"
-	case len(pw.raw) > 127:
-		return "aes256-password-over-127-bytes-not-truncated-on-write"
+	if !selfOK {
+		if err != nil || string(pp) != pw.raw {
+			return "aes256-password-prep-asymmetric"
+		}
+		if len(pw.raw) > 127 {
+			return "aes256-password-over-127-bytes-not-truncated-on-write"
+		}
+		return ""
+	}
+	if pw.ok && (err != nil || string(pp) != pw.sasl) {
+		return "aes256-password-prep-not-saslprep"
 	}
 	return ""
+}
+
+// selfAuth: does pdfcpu authenticate the raw password against the entries e (file key fk)?
+func selfAuth(e *model.Enc, fk []byte, raw string, owner bool) bool {
+	c := &model.Context{Configuration: model.NewDefaultConfiguration(), XRefTable: &model.XRefTable{}}
+	ec := *e
+	c.E = &ec
+	var ok bool
+	err := guard(func() (er error) {
+		if owner {
+			c.OwnerPW = raw
+			ok, er = pdfcpu.VerifC24ValidateOwnerPassword(c)
+		} else {
+			c.UserPW = raw
+			ok, er = pdfcpu.VerifC24ValidateUserPassword(c)
+		}
+		return
+	})
+	return err == nil && ok && bytes.Equal(c.EncKey, fk)
 }
 
 func partAES(r *vh.Run) {
@@ -344,7 +371,21 @@ func partAES(r *vh.Run) {
 					return pdfcpu.VerifC24WritePermissions(ctx, d)
 				})
 				if err != nil {
-					r.OracleFail("error:calcOAndU", in, err.Error())
+					// refusing a password SASLprep prohibits is right; refusing one it accepts is not
+					cl := "error:calcOAndU"
+					if strings.Contains(err.Error(), "precis") || strings.Contains(err.Error(), "bidirule") {
+						cl = ""
+						for _, pw := range []pwCase{upw, opw} {
+							if _, perr := pdfcpu.VerifC24ProcessInput(pw.raw); perr != nil && pw.ok {
+								cl = aesClass(pw, true)
+							}
+						}
+					}
+					if cl != "" {
+						r.OracleFail(cl, in, "calcOAndU: "+err.Error())
+					} else {
+						r.OracleOK()
+					}
 				} else {
 					e := ctx.E
 					fk := ctx.EncKey
@@ -352,7 +393,7 @@ func partAES(r *vh.Run) {
 						ok, key := iAlg11(rev, upw.prepared, e.U, e.UE)
 						wu, wue := iAlg8(rev, upw.prepared, e.U[32:40], e.U[40:48], fk)
 						if !ok || !bytes.Equal(key, fk) || !bytes.Equal(wu, e.U) || !bytes.Equal(wue, e.UE) {
-							c := prepClass(upw)
+							c := aesClass(upw, selfAuth(e, fk, upw.raw, false))
 							if c == "" {
 								c = "iso-mismatch:calcOAndUAES256:user"
 							}
@@ -365,7 +406,7 @@ func partAES(r *vh.Run) {
 						ok, key := iAlg12(rev, opw.prepared, e.O, e.OE, e.U)
 						wo, woe := iAlg9(rev, opw.prepared, e.O[32:40], e.O[40:48], e.U, fk)
 						if !ok || !bytes.Equal(key, fk) || !bytes.Equal(wo, e.O) || !bytes.Equal(woe, e.OE) {
-							c := prepClass(opw)
+							c := aesClass(opw, selfAuth(e, fk, opw.raw, true))
 							if c == "" {
 								c = "iso-mismatch:calcOAndUAES256:owner"
 							}
@@ -406,8 +447,8 @@ func partAES(r *vh.Run) {
 				accepted := err == nil && ok
 				switch {
 				case accepted != want, accepted && !bytes.Equal(c.EncKey, fk):
-					cl := prepClass(cand)
-					if cl == "" || cl == "prohibited" {
+					cl := aesClass(cand, true)
+					if cl == "" {
 						cl = "iso-mismatch:validateUserPasswordAES256"
 					}
 					r.OracleFail(cl, in2, fmt.Sprintf("pdfcpu ok=%v err=%v, Algorithm 11 says %v", ok, err, want))
@@ -435,8 +476,8 @@ func partAES(r *vh.Run) {
 				case cand.raw == "" && want && !accepted:
 					r.OracleFail("aes256-empty-owner-password-not-authenticated", in2, "Algorithm 12 authenticates the empty owner password of this document, validateOwnerPasswordAES256* returns false for every empty owner slot")
 				case accepted != want, accepted && !bytes.Equal(c.EncKey, fk):
-					cl := prepClass(cand)
-					if cl == "" || cl == "prohibited" {
+					cl := aesClass(cand, true)
+					if cl == "" {
 						cl = "iso-mismatch:validateOwnerPasswordAES256"
 					}
 					r.OracleFail(cl, in2, fmt.Sprintf("pdfcpu ok=%v err=%v, Algorithm 12 says %v", ok, err, want))
@@ -483,8 +524,7 @@ var algs = []alg{
 func conformingBytes(a alg, s string) (b []byte, ok bool, class string) {
 	if a.rev >= 5 {
 		p, ok, _ := saslprep(s)
-		pc := pwCase{s, trunc127([]byte(p)), ok, p}
-		return pc.prepared, ok, prepClass(pc)
+		return trunc127([]byte(p)), ok, "" // class: aesClass, once it is known whether pdfcpu is self-consistent
 	}
 	// PDFDocEncoding: ASCII and U+00A1..U+00FF are encoded as the code point value
 	var out []byte
@@ -535,6 +575,8 @@ func partE2E(r *vh.Run) {
 			}
 			perm := perms[r.Rand.Intn(3)]
 			in := map[string]any{"alg": a.name, "upw": hx([]byte(us)), "opw": hx([]byte(os_)), "perm": int(perm)}
+			mkCase := func(s string) pwCase { p, ok, _ := saslprep(s); return pwCase{s, trunc127([]byte(p)), ok, p} }
+			upc, opc := mkCase(us), mkCase(os_)
 
 			// ---- pdfcpu writes, independent reader opens
 			var c *model.Configuration
@@ -546,7 +588,16 @@ func partE2E(r *vh.Run) {
 			c.Permissions = perm
 			var out bytes.Buffer
 			if err := guard(func() error { return api.Encrypt(bytes.NewReader(plainPDF(a.v20)), &out, c) }); err != nil {
-				r.OracleFail("error:encrypt", in, err.Error())
+				// AES-256: refusing a password SASLprep accepts (both are accepted here) is a preparation that is not SASLprep
+				cl := "error:encrypt"
+				if a.rev >= 5 && strings.Contains(err.Error(), "password entries:") {
+					for _, pc := range []pwCase{upc, opc} {
+						if _, perr := pdfcpu.VerifC24ProcessInput(pc.raw); perr != nil {
+							cl = aesClass(pc, true)
+						}
+					}
+				}
+				r.OracleFail(cl, in, err.Error())
 			} else {
 				ep, err := parseEncryption(out.Bytes())
 				if err != nil {
@@ -574,6 +625,16 @@ func partE2E(r *vh.Run) {
 						}
 						switch {
 						case !ok:
+							if a.rev >= 5 { // does pdfcpu open its own file with this password?
+								var self string
+								if who == "user" {
+									self, _ = openWith(out.Bytes(), "", us)
+									class = aesClass(upc, self == "ok")
+								} else {
+									self, _ = openWith(out.Bytes(), os_, "")
+									class = aesClass(opc, self == "ok")
+								}
+							}
 							if class == "" {
 								class = "iso-mismatch:e2e-reader-rejects-" + who + "-password"
 							}
@@ -621,6 +682,11 @@ func partE2E(r *vh.Run) {
 				}
 				switch {
 				case want && (res != "ok" || !content):
+					if a.rev >= 5 && who == "user" {
+						class = aesClass(upc, true)
+					} else if a.rev >= 5 {
+						class = aesClass(opc, true)
+					}
 					if class == "" {
 						class = "iso-mismatch:e2e-pdfcpu-rejects-" + who + "-password"
 					}
